@@ -220,7 +220,12 @@ def gen_case(rng, malformed=False):
                 if rng.random() < 0.2:
                     during.insert(rng.randint(0, len(during)), tuple(intruder()[1:]))
                 steps.append(('respond', proceed, [], rng.choice([0xFFFFFF, 0x100, 2]), rng.choice([0xFF, 7]), during))
-            if rng.random() < 0.85:
+            if rng.random() < 0.15:
+                # the requester's closing DM14 arrives while the serving node is itself querying a third node, after another
+                # node's request has been turned away meanwhile: the running transaction is closed all the same
+                steps.append(('query', rng.random() < 0.5, [tuple(intruder()[1:]) for _ in range(rng.randint(0, 2))]
+                              + [(PGN['DM14'], client, dm14(count, direct, 4, addr, 0xFFFF, length))]))
+            elif rng.random() < 0.85:
                 steps.append(('msg', PGN['DM14'], client, dm14(count, direct, 4, addr, 0xFFFF, length)))
         if rng.random() < 0.1:
             steps.append(('reset',))
@@ -411,6 +416,15 @@ def check_theorems(case, recs, init_summary):
                 if list(post) != list(pre) or bad_out:
                     v.append(('C19', 'intruder-changes-the-running-transaction' if list(post) != list(pre) else 'intruder-causes-other-output', i,
                               dict(op=op, requester=dpre['sa'], state_before=dpre, outputs=outs[:3])))
+        if op[0] == 'query' and dpre['a_state'] == 1 and dpre['state'] == 6 and dpre['sa'] != NONE and dpre['busy'] == 0 and dpre['addr'] is not None:
+            # waiting for the requester's closing DM14: when it arrives during the node's own query (whatever other nodes asked
+            # meanwhile) the transaction is closed
+            closing = [m for m in op[2] if m[0] == PGN['DM14'] and m[1] == dpre['sa'] and len(m[2]) == dpre['length']
+                       and list(m[2][2:dpre['length'] - 2]) == list(dpre['addr'])]
+            dpost = decode_summary(post)
+            if closing and closing[-1] == tuple(op[2][-1]) and (dpost['state'] != 1 or dpost['sa'] != NONE):
+                v.append(('C19', 'closing-dm14-of-the-running-transaction-refused-after-another-node-asked-during-the-own-query', i,
+                          dict(op=op, state_after=dpost['state'], requester_after=dpost['sa'])))
         if op[0] == 'query' and dpre['a_state'] == 1:
             if any(o[0] in ('proceed', 'notify') for o in outs):
                 v.append(('C19', 'request-passed-to-the-application-while-the-node-is-itself-querying', i, dict(op=op, outputs=outs[:3])))
